@@ -100,9 +100,14 @@ def convPrim (P : Params) (cfg : Cfg) (p : Prim) (s : Bytes) : Option Val :=
     | some (_, b32, ovf, _) => if ovf then none else some (.flt b32)
     | none => none
   | .bool => (parseBool s).map .bool
-  | .time => (P s).t.map .time
+  -- setFieldValue, priority 0: a registered converter decides alone
+  | .time => match cfg.convs.lookup timeKey with
+    | some c => ((P s).c.lookup c).map .time
+    | none => (P s).t.map .time
   | .dur => (P s).d.map .int
-  | .opq k => ((P s).o.lookup k).map .time
+  | .opq k => match cfg.convs.lookup k with
+    | some c => ((P s).c.lookup c).map .time
+    | none => ((P s).o.lookup k).map .time
 
 /-- setFieldValue / convertToType on a type of the grammar: only leaves convert -/
 def convTy (P : Params) (cfg : Cfg) : Ty → Bytes → Option Val
